@@ -10,6 +10,8 @@ import (
 	"github.com/pip-services3-gox/pip-services3-expressions-gox/calculator/parsers"
 	"github.com/pip-services3-gox/pip-services3-expressions-gox/calculator/variables"
 	sio "github.com/pip-services3-gox/pip-services3-expressions-gox/io"
+	"github.com/pip-services3-gox/pip-services3-expressions-gox/mustache"
+	mparsers "github.com/pip-services3-gox/pip-services3-expressions-gox/mustache/parsers"
 	"github.com/pip-services3-gox/pip-services3-expressions-gox/tokenizers"
 	"github.com/pip-services3-gox/pip-services3-expressions-gox/variants"
 )
@@ -44,6 +46,9 @@ func init() {
 			var ex []string
 			for _, e := range sx.AsList(l[1]) {
 				ex = append(ex, sx.Quote(sx.AsString(sx.AsList(e)[0])))
+			}
+			if sx.AsInt(l[0]) == 2 {
+				return "one template object: " + strings.Join(ex, " ; ")
 			}
 			return "one parser/calculator: " + strings.Join(ex, " ; ")
 		},
@@ -121,6 +126,22 @@ func genC05(ctx *Ctx) {
 		}
 		emitHistory(ctx.Rnd.Intn(4), texts)
 	}
+	// template histories
+	for i := 0; i < ctx.N/4; i++ {
+		n := 2 + ctx.Rnd.Intn(5)
+		var steps sx.List
+		for j := 0; j < n; j++ {
+			var tpl string
+			if ctx.Rnd.Intn(4) == 0 {
+				tpl = []string{"{{#a}}x", "{{/a}}", "{{a", "{{{a}}", "", "}}", "text only"}[ctx.Rnd.Intn(7)]
+			} else {
+				tpl = mPrint(ctx.Rnd, genMNodes(ctx.Rnd, 1+ctx.Rnd.Intn(2)))
+			}
+			steps = append(steps, mInput(tpl, genVars(ctx.Rnd), sx.L()))
+		}
+		ctx.Count("template-history")
+		ctx.Input(sx.L(sx.I(2), steps), true)
+	}
 	// calculator histories
 	bad := []string{"a +", "1 2", "f(", "a[1", "(a", "a $ b", "", "NOT", "a IS", "'x"}
 	for i := 0; i < ctx.N/4; i++ {
@@ -140,6 +161,51 @@ func genC05(ctx *Ctx) {
 		ctx.Count("calculator-history")
 		ctx.Input(sx.L(sx.I(1), steps), true)
 	}
+}
+
+func runC05Templates(steps sx.List) (sx.SX, string) {
+	tpl := mustache.NewMustacheTemplate()
+	var out sx.List
+	fail := ""
+	for i, st := range steps {
+		if i%3 == 2 {
+			tpl.Clear() // Clear between uses must leave a usable object
+		}
+		one := func(t *mustache.MustacheTemplate) sx.SX {
+			l := sx.AsList(st)
+			text := sx.AsString(l[0])
+			vars := map[string]string{}
+			for _, b := range sx.AsList(l[2]) {
+				bb := sx.AsList(b)
+				vars[sx.AsString(bb[0])] = sx.AsString(bb[1])
+			}
+			if err := t.SetTemplate(text); err != nil {
+				c, ok := mErrCodes[codeOf(err)]
+				if !ok {
+					c = 99
+				}
+				return sx.L(sx.I(1), sx.I(c))
+			}
+			p := mparsers.NewMustacheParser()
+			p.SetTemplate(text)
+			var names sx.List
+			for _, n := range p.VariableNames() {
+				names = append(names, sx.S(n))
+			}
+			res, err := t.EvaluateWithVariables(vars)
+			if err != nil {
+				return sx.L(sx.I(1), sx.I(98))
+			}
+			return sx.L(sx.I(0), sx.S(res), names)
+		}
+		got := one(tpl)
+		want := one(mustache.NewMustacheTemplate())
+		if sx.Text(got) != sx.Text(want) && fail == "" {
+			fail = fmt.Sprintf("template %d (%s): the reused object gave %s, a fresh one %s", i, sx.Quote(sx.AsString(sx.AsList(st)[0])), sx.Text(got), sx.Text(want))
+		}
+		out = append(out, got)
+	}
+	return out, fail
 }
 
 func runCalls(t tokenizers.ITokenizer, text string, calls sx.List) sx.List {
@@ -181,6 +247,9 @@ func runC05(in sx.SX) (sx.SX, string) {
 			out = append(out, got)
 		}
 		return out, fail
+	}
+	if sx.AsInt(l[0]) == 2 {
+		return runC05Templates(sx.AsList(l[1]))
 	}
 	p := parsers.NewExpressionParser()
 	calc := calculator.NewExpressionCalculator()
